@@ -127,6 +127,18 @@ Theorem C18_canonical_invertible :
   forall (A : Type) (g : gspec) (a : arr A), arr_eq (from_canonical g (to_canonical g a)) a.
 Proof. exact from_to_canonical. Qed.
 
+(** A re-used Info object that is mutated between calls (grid replaced by one of the other memory
+    order / another layout, mask replaced, copy_with, copy, accepts in between): the result of a
+    [prepare] depends only on the CURRENT fields of the info, never on the history; in particular
+    (with C18_prepare_mask) it applies exactly the current fixed mask. *)
+Theorem C18_prepare_history_independent :
+  forall (st : info_state) (ops1 : list info_op) (form : payload_form) (vals : list Z) (ops2 : list info_op),
+    let cur := info_final st ops1 in
+    nth (length ops1) (info_run st (ops1 ++ IPrepare form vals :: ops2)) SNothing
+    = let r := prepare_mask (i_shape cur) (i_order cur) form vals 0%Z None (i_mask cur) in
+      SPrep (fst r) (snd r).
+Proof. exact prepare_history_independent. Qed.
+
 (** * Non-vacuity *)
 
 Definition ex_a : arr Z := of_list OC [3; 2] [10; 11; 12; 13; 14; 15]%Z 0%Z.
@@ -173,6 +185,16 @@ Example C18_acceptance_nonvacuous :
        (Some (GStruct true [true; false])) <> None.
 Proof. repeat split; try (vm_compute; reflexivity). intro H. vm_compute in H. discriminate H. Qed.
 
+(** flat prepare on an F-ordered 3x2 grid, grid replaced by the C-ordered one, flat prepare again:
+    both results carry exactly the fixed mask *)
+Example C18_history_nonvacuous :
+  info_run (mkinfo [3; 2] OF (GStruct false [true; true]) (MBits ex_m2))
+    [IPrepare Flat [0; 1; 2; 3; 4; 5]%Z; ISetGrid OC (GStruct false [true; true]);
+     IPrepare Flat [0; 1; 2; 3; 4; 5]%Z]
+  = [SPrep [0; 3; 1; 4; 2; 5]%Z (Some [true; true; false; false; false; false]); SNothing;
+     SPrep [0; 1; 2; 3; 4; 5]%Z (Some [true; true; false; false; false; false])].
+Proof. vm_compute. reflexivity. Qed.
+
 Print Assumptions C18_roundtrip.
 Print Assumptions C18_roundtrip_unmasked.
 Print Assumptions C18_compress_length.
@@ -180,3 +202,4 @@ Print Assumptions C18_prepare_mask.
 Print Assumptions C18_acceptance_table.
 Print Assumptions C18_exchange.
 Print Assumptions C18_canonical_invertible.
+Print Assumptions C18_prepare_history_independent.
